@@ -147,7 +147,7 @@ package maintenance
 // both, so its tables are created with the Replicated engines AND the _dist tables.
 //@ ghost var dbUpgrades int
 //@ ghost var dbUpgradeFailed bool
-//@ func upgradeDB [C18]
+//@ func upgradeDB [C18,C19]
 //@   flag checks=-index,-assert
 //@   ghostinit streamUsed = constmap("Int", false)
 //@   ghostset dbUpgrades = dbUpgrades + 1
@@ -155,6 +155,9 @@ package maintenance
 //@   modifies everything
 //@   at Update$ cloud-bit-follows-the-configuration: ((mode & 2) != 0) <==> dbObject.Cloud
 //@   at Update$ distributed-bit-follows-the-configuration: ((mode & 4) != 0) <==> dbObject.ClusterName != ""
+// the tables are created with the configured storage policy, ordering and retention, each
+// in its own place (rotation re-applies the policy to its own tables only)
+//@   at Update$ configured-storage-policy-ordering-and-ttl-reach-the-scripts: arg5 == dbObject.StoragePolicy && arg6 == dbObject.SamplesOrdering && arg4 == dbObject.TTLDays && arg1 == dbObject.Name && arg2 == dbObject.ClusterName && arg7 == dbObject.SkipUnavailableShards
 // Initialisation applies each script file under its own stream key.
 //@ func Update [C18]
 //@   requires streamUsed == constmap("Int", false)
